@@ -66,3 +66,102 @@ Proof. vm_compute. repeat split; reflexivity. Qed.
 Example C06_example : tokenize dl_mysql std_uni true (print_str KSingle (s2l "it" ++ [cSQ] ++ s2l "s")) =
                       LexOk [(TStr KSingle (s2l "it" ++ [cSQ] ++ s2l "s"), (1, 1))].
 Proof. vm_compute. reflexivity. Qed.
+
+(** * Verbatim-printed kinds (B'..', R'..', triple-quoted forms, [..] identifiers, $..$ strings).
+    Display writes the payload between the delimiters as it is.  Outside the class of payloads
+    listed as known findings ([known_verbatim], [known_triple], [has_char cRBR], [known_dollar],
+    [known_dollar_tagged]) the printed text lexes back to exactly ONE token carrying the payload,
+    for every dialect satisfying the side conditions, every payload of any length, and both
+    un-escaping modes; inside each class a witness shows the round trip failing. *)
+Require Import SqlV.EscapeMore.
+
+Theorem C06_byte_single : forall d u unesc p,
+  d_bq_or_generic d = true -> known_verbatim cSQ false p = false ->
+  tokenize d u unesc (print_str KByteSingle p) = LexOk [(TStr KByteSingle p, (1, 1))].
+Proof. exact byte_single_one_token. Qed.
+Theorem C06_byte_double : forall d u unesc p,
+  d_bq_or_generic d = true -> known_verbatim cDQ false p = false ->
+  tokenize d u unesc (print_str KByteDouble p) = LexOk [(TStr KByteDouble p, (1, 1))].
+Proof. exact byte_double_one_token. Qed.
+Theorem C06_raw_single : forall d u unesc p,
+  d_bq_or_generic d = true -> known_verbatim cSQ false p = false ->
+  tokenize d u unesc (print_str KRawSingle p) = LexOk [(TStr KRawSingle p, (1, 1))].
+Proof. exact raw_single_one_token. Qed.
+Theorem C06_raw_double : forall d u unesc p,
+  d_bq_or_generic d = true -> known_verbatim cDQ false p = false ->
+  tokenize d u unesc (print_str KRawDouble p) = LexOk [(TStr KRawDouble p, (1, 1))].
+Proof. exact raw_double_one_token. Qed.
+Theorem C06_triple_single : forall d u unesc p,
+  d_triple d = true -> known_triple cSQ (d_backslash d) p = false ->
+  tokenize d u unesc (print_str KTripleSingle p) = LexOk [(TStr KTripleSingle p, (1, 1))].
+Proof. exact triple_single_one_token. Qed.
+Theorem C06_triple_double : forall d u unesc p,
+  d_triple d = true -> d_delim_start d cDQ = false -> d_ident_start d cDQ = false ->
+  known_triple cDQ (d_backslash d) p = false ->
+  tokenize d u unesc (print_str KTripleDouble p) = LexOk [(TStr KTripleDouble p, (1, 1))].
+Proof. exact triple_double_one_token. Qed.
+Theorem C06_triple_byte_single : forall d u unesc p,
+  d_bq_or_generic d = true -> d_triple d = true -> known_triple cSQ false p = false ->
+  tokenize d u unesc (print_str KTripleByteSingle p) = LexOk [(TStr KTripleByteSingle p, (1, 1))].
+Proof. exact triple_byte_single_one_token. Qed.
+Theorem C06_triple_byte_double : forall d u unesc p,
+  d_bq_or_generic d = true -> d_triple d = true -> known_triple cDQ false p = false ->
+  tokenize d u unesc (print_str KTripleByteDouble p) = LexOk [(TStr KTripleByteDouble p, (1, 1))].
+Proof. exact triple_byte_double_one_token. Qed.
+Theorem C06_triple_raw_single : forall d u unesc p,
+  d_bq_or_generic d = true -> known_triple cSQ false p = false ->
+  tokenize d u unesc (print_str KTripleRawSingle p) = LexOk [(TStr KTripleRawSingle p, (1, 1))].
+Proof. exact triple_raw_single_one_token. Qed.
+Theorem C06_triple_raw_double : forall d u unesc p,
+  d_bq_or_generic d = true -> known_triple cDQ false p = false ->
+  tokenize d u unesc (print_str KTripleRawDouble p) = LexOk [(TStr KTripleRawDouble p, (1, 1))].
+Proof. exact triple_raw_double_one_token. Qed.
+Theorem C06_bracket_ident : forall d u unesc p,
+  d_delim_start d cLBR = true -> d_piq d = PiqAlways -> has_char cRBR p = false ->
+  tokenize d u unesc (print_ident cLBR p) = LexOk [(TWord p (Some cLBR), (1, 1))].
+Proof. exact bracket_one_token. Qed.
+Theorem C06_dollar : forall d u unesc p,
+  d_delim_start d cDOLLAR = false -> d_ident_start d cDOLLAR = false -> known_dollar p = false ->
+  tokenize d u unesc (print_dollar None p) = LexOk [(TDollar p None, (1, 1))].
+Proof. exact dollar_one_token. Qed.
+Theorem C06_dollar_tagged : forall d u unesc tag p,
+  d_delim_start d cDOLLAR = false -> d_ident_start d cDOLLAR = false ->
+  tag_ok u tag = true -> u_alphanumeric u cDOLLAR = false -> known_dollar_tagged p = false ->
+  tokenize d u unesc (print_dollar (Some tag) p) = LexOk [(TDollar p (Some tag), (1, 1))].
+Proof. exact dollar_tagged_one_token. Qed.
+Print Assumptions C06_byte_single.
+Print Assumptions C06_triple_double.
+Print Assumptions C06_bracket_ident.
+Print Assumptions C06_dollar_tagged.
+
+(** the side conditions on the tables regenerated from the running crate: every dialect that
+    lexes triple-quoted strings keeps the double quote out of its identifier characters; no
+    dialect starts a delimited identifier with a dollar sign; a dollar sign is not alphanumeric;
+    and the hypotheses are satisfiable (BigQuery lexes all the B/R/triple forms, MsSql, Redshift
+    and SQLite lex [..]) *)
+Example C06_verbatim_side_conditions :
+  forallb (fun d => negb (d_triple d) || (negb (d_delim_start d cDQ) && negb (d_ident_start d cDQ))) all_dialects = true /\
+  forallb (fun d => negb (d_delim_start d cDOLLAR)) all_dialects = true /\
+  u_alphanumeric std_uni cDOLLAR = false /\
+  d_bq_or_generic dl_bigquery = true /\ d_triple dl_bigquery = true /\
+  d_delim_start dl_mssql cLBR = true /\ d_piq dl_mssql = PiqAlways /\
+  d_ident_start dl_postgresql cDOLLAR = false.
+Proof. vm_compute. repeat split; reflexivity. Qed.
+
+(** witnesses inside the classes (the known findings verbatim:terminator, verbatim:backslash,
+    verbatim:dollar-in-payload), computed with the lexer model *)
+Theorem C06_byte_quote_refuted : exists p, known_verbatim cSQ false p = true /\
+  tokenize rich_dialect plain_uni true (print_str KByteSingle p) <> LexOk [(TStr KByteSingle p, (1, 1))].
+Proof. exact byte_quote_refuted. Qed.
+Theorem C06_triple_trailing_quote_refuted : exists p, ends_with_c cSQ p = true /\ known_triple cSQ true p = true /\
+  tokenize rich_dialect plain_uni true (print_str KTripleSingle p) <> LexOk [(TStr KTripleSingle p, (1, 1))].
+Proof. exact triple_trailing_quote_refuted. Qed.
+Theorem C06_bracket_refuted : exists p, has_char cRBR p = true /\
+  tokenize rich_dialect plain_uni true (print_ident cLBR p) <> LexOk [(TWord p (Some cLBR), (1, 1))].
+Proof. exact bracket_refuted. Qed.
+Theorem C06_dollar_pair_refuted : exists p, has_pair cDOLLAR cDOLLAR p = true /\ known_dollar p = true /\
+  tokenize rich_dialect plain_uni true (print_dollar None p) <> LexOk [(TDollar p None, (1, 1))].
+Proof. exact dollar_pair_refuted. Qed.
+Theorem C06_dollar_tagged_refuted : exists tag p, tag_ok plain_uni tag = true /\ known_dollar_tagged p = true /\
+  tokenize rich_dialect plain_uni true (print_dollar (Some tag) p) <> LexOk [(TDollar p (Some tag), (1, 1))].
+Proof. exact dollar_tagged_refuted. Qed.
